@@ -2,7 +2,7 @@
    Statements only; proofs in proofs/ManagerC01.v. *)
 From Coq Require Import List Bool Arith ZArith NArith Lia.
 From XD Require Import lib.ListAux lib.Toposort model.Manager model.ManagerData
-  proofs.ManagerIdx proofs.ManagerInv proofs.ManagerTrace proofs.ManagerDataInv proofs.Store proofs.ManagerC01.
+  proofs.ManagerIdx proofs.ManagerInv proofs.ManagerTrace proofs.ManagerDataInv proofs.Store proofs.ManagerC01 proofs.ManagerOrder.
 Import ListNotations.
 Local Open Scope nat_scope.
 
@@ -61,6 +61,34 @@ Theorem C01_run_order : forall (ts : list (path * @task path action)) (L : list 
   (forall q, (forall a, In a L -> overlap a q = false) -> nget (d_st s2) q = nget st1 q) /\
   d_fault s2 = None.
 Proof. exact run_expr_tasks. Qed.
+
+(* "independent of the order in which ... and of the hash seed": assigning a plain value
+   under two different iteration orders (of the assigned reference's dependency set and
+   of the start set of the search) runs the same set of tasks and leaves the same value
+   at every triggered target, at the assigned location and at every location that
+   overlaps neither — under the acyclicity hypothesis above and when what a triggered
+   task reads is disjoint from, or at or below, each written location. *)
+Theorem C01_order_independent_partial : forall (m : dmgr) s r x sd1 so1 sd2 so2 m1 s1 out1 m2 s2 out2,
+  Inv path_eqb m -> Consistent (m_tasks m) (d_st s) -> d_fault s = None ->
+  set_value m s r (SPlain x) sd1 so1 = (m1, s1, out1) -> o_err out1 = None ->
+  set_value m s r (SPlain x) sd2 so2 = (m2, s2, out2) -> o_err out2 = None ->
+  2 <= length r ->
+  (forall y, In y sd1 <-> In y (deps_of r)) -> (forall y, In y sd2 <-> In y (deps_of r)) ->
+  let ts := m_tasks m1 in
+  sem_wf ts -> writes_disjoint ts -> no_self_read ts ->
+  (forall a T, aget path_eqb a ts = Some T -> a <> r -> overlap r a = false) ->
+  (forall u w, Triggered path_eqb ts sd1 u -> Triggered path_eqb ts sd1 w -> u <> w -> edge path_eqb ts u w ->
+               ~ clos (edge path_eqb ts) w u) ->
+  (forall a T e q, Triggered path_eqb ts sd1 a -> aget path_eqb a ts = Some T -> t_act T = AExpr e -> In q (reads e) ->
+                   (overlap r q = true -> is_prefix r q = true) /\
+                   (forall b, Triggered path_eqb ts sd1 b -> overlap b q = true -> is_prefix b q = true)) ->
+  m_tasks m2 = ts /\
+  (forall a, In a (o_trace out1) <-> In a (o_trace out2)) /\
+  (forall a, In a (o_trace out1) -> nget (d_st s1) a = nget (d_st s2) a) /\
+  nget (d_st s1) r = nget (d_st s2) r /\
+  (forall q, overlap r q = false -> (forall a, In a (o_trace out1) -> overlap a q = false) ->
+             nget (d_st s1) q = nget (d_st s2) q).
+Proof. exact plain_assign_order_independent. Qed.
 
 (* The unrestricted statement is false of the faithful model: siblings of one nested
    object, defined n.x = a*2; n.z = n.y*3; n.y = n.x+1, then a = 5.  With the set
@@ -125,5 +153,6 @@ Qed.
 Print Assumptions C01_step_partial.
 Print Assumptions C01_history_partial.
 Print Assumptions C01_run_order.
+Print Assumptions C01_order_independent_partial.
 Print Assumptions C01_refuted_nested_siblings.
 Print Assumptions C01_nonvacuous.
